@@ -140,27 +140,32 @@ func c17HistStr(h []int) string {
 func c17CheckHistory(c *fw.Ctx, h []int) string {
 	m := utilities.NewCharReferenceMap()
 	var ivs []c17Interval
-	for _, i := range h {
-		c17Apply(m, c17Ops[i])
-		ivs = c17ModelApply(ivs, c17Ops[i])
-	}
-	var key strings.Builder
 	names := []string{"A", "B", "nil"}
-	for _, p := range c17Probes {
-		var got string
-		if pv := fw.Try(func() { got = c17Classify(m.Lookup(p)) }); pv != nil {
-			got = "panic"
+	var key strings.Builder
+	// the probes are looked up after EVERY operation on the same map (lookups between
+	// registrations must not influence later answers); the vector after the last one is the state key
+	for step := 0; step <= len(h); step++ {
+		if step > 0 {
+			c17Apply(m, c17Ops[h[step-1]])
+			ivs = c17ModelApply(ivs, c17Ops[h[step-1]])
 		}
-		want := names[c17ModelLookup(ivs, p)]
-		if got != want {
-			side := "below-0x100"
-			if p >= 0x100 {
-				side = "above-0xFF"
+		key.Reset()
+		for _, p := range c17Probes {
+			var got string
+			if pv := fw.Try(func() { got = c17Classify(m.Lookup(p)) }); pv != nil {
+				got = "panic"
 			}
-			c.Violation("lookup-"+side, "after [%s]: Lookup(%#x) = %s, the latest covering registration says %s", c17HistStr(h), p, got, want)
+			want := names[c17ModelLookup(ivs, p)]
+			if got != want {
+				side := "below-0x100"
+				if p >= 0x100 {
+					side = "above-0xFF"
+				}
+				c.Violation("lookup-"+side, "after [%s] (all probes looked up after every operation): Lookup(%#x) = %s, the latest covering registration says %s", c17HistStr(h[:step]), p, got, want)
+			}
+			key.WriteString(got)
+			key.WriteByte(',')
 		}
-		key.WriteString(got)
-		key.WriteByte(',')
 	}
 	c.Eval(1)
 	return key.String()
